@@ -1,1 +1,4 @@
+// the real header defines SUNRabs, SUNRsqrt ... on top of <math.h>: it is the one SUNDIALS header that brings the C mathematical
+// functions in (naunet.h includes it; naunet_rates/fex/jac do not)
+#include <math.h>
 #include "../sundials_shim.h"
